@@ -62,6 +62,16 @@ func probeMain(spec string) {
 				if len(ss) > 2 {
 					ss = ss[:2]
 				}
+			case spec == "timingmulti":
+				if !c.Timing || c.NGPU == 1 {
+					continue
+				}
+				ss = admissibleSizes(w, c, 0)
+			case spec == "emumulti":
+				if c.Timing || (c.NGPU == 1 && !c.UnifiedMem) {
+					continue
+				}
+				ss = admissibleSizes(w, c, 0)
 			case spec == "timing1":
 				if !c.Timing || c.NGPU > 1 || c.UnifiedMem {
 					continue
